@@ -247,12 +247,21 @@ def _objects():
     return {
         'point_rel': lambda: pygaps.PointIsotherm(pressure=_PREL, loading=load, pressure_mode='relative', **kw),
         'point_abs': lambda: mk_abs(pygaps, 3.0, 0.8),
-        'model_langmuir': lambda: model('Langmuir', {'n_m': 3.0, 'K': 0.8}),
-        'model_toth': lambda: model('Toth', {'n_m': 3.0, 'K': 0.8, 't': 0.7}),
+        'model_langmuir': lambda: model('Langmuir', {'n_m': 3.0123456789123, 'K': 0.8123456789123}),
+        'model_toth': lambda: model('Toth', {'n_m': 3.0123456789123, 'K': 0.8123456789123, 't': 0.7123456789123}),
         'model_dsl': lambda: model('DSLangmuir', {'n_m1': 2.0, 'K1': 0.8, 'n_m2': 1.0, 'K2': 0.05}),
-        'model_langmuir_pa': lambda: model('Langmuir', {'n_m': 3.0, 'K': 0.8e-5}, 'Pa'),
-        'model_toth_pa': lambda: model('Toth', {'n_m': 3.0, 'K': 0.8e-5, 't': 0.7}, 'Pa'),
+        # several isotherms handed over together, stored in DIFFERENT pressure units / temperatures (isosteric enthalpy, IAST)
+        'point_list_mixed': lambda: [_langmuir_point(pygaps, T, K, unit, scale) for T, K, unit, scale in
+                                     ((298.15, 0.9, 'bar', 1.0), (323.15, 0.55, 'kPa', 100.0), (348.15, 0.35, 'Pa', 1e5))],
+        'model_langmuir_pa': lambda: model('Langmuir', {'n_m': 3.0123456789123, 'K': 0.8123456789123e-5}, 'Pa'),
+        'model_toth_pa': lambda: model('Toth', {'n_m': 3.0123456789123, 'K': 0.8123456789123e-5, 't': 0.7123456789123}, 'Pa'),
     }
+
+
+def _langmuir_point(pygaps, T, K, unit, scale, ads='nitrogen'):
+    p = [0.05, 0.1, 0.2, 0.5, 1.0, 2.0, 4.0, 7.0, 10.0]
+    return pygaps.PointIsotherm(pressure=[x * scale for x in p], loading=[3.0 * K * x / (1 + K * x) for x in p], material='verif_c04', adsorbate=ads, temperature=T,
+                                pressure_mode='absolute', pressure_unit=unit, loading_basis='molar', loading_unit='mmol', material_basis='mass', material_unit='g')
 
 
 def _calls():
@@ -284,6 +293,9 @@ def _calls():
         'whittaker_point': ('point_abs', lambda i: pgc.enthalpy_sorption_whittaker(i, model='Langmuir', loading=[0.5, 1.0])),
         'whittaker_point_toth': ('point_abs', lambda i: pgc.enthalpy_sorption_whittaker(i, model='Toth', loading=[0.5, 1.0])),
     }
+    c['isosteric_enthalpy:mixed_units'] = ('point_list_mixed', lambda L: pgc.isosteric_enthalpy(L, loading_points=[0.4, 0.8, 1.2]))
+    c['isosteric_enthalpy:out_of_range'] = ('point_list_mixed', lambda L: pgc.isosteric_enthalpy(L, loading_points=[0.4, 2.9]))
+    c['iast:point_list'] = ('point_list_mixed', lambda L: pgi.iast_point_fraction(L[:2], [0.4, 0.6], 1.5))
     for mk in ('model_langmuir', 'model_toth', 'model_dsl'):
         if mk != 'model_dsl':
             c['whittaker:' + mk] = (mk + '_pa', lambda i: pgc.enthalpy_sorption_whittaker(i, loading=[0.5, 1.0]))
@@ -313,13 +325,32 @@ def _summar(x):
     return repr(x)[:200]
 
 
-def _obs_any(iso):
-    """everything observable of an isotherm of either class"""
+def _raw_state(iso):
+    """the stored state itself, read WITHOUT going through the identifier / export code (which could touch it)"""
     if hasattr(iso, 'data_raw'):
-        return obs(iso)
-    m = iso.model
-    return (iso.iso_id, repr(sorted((k, repr(v)) for k, v in iso.to_dict().items())), tuple(sorted((k, repr(v)) for k, v in m.params.items())),
-            repr(m.pressure_range), repr(m.loading_range), repr(getattr(m, 'rmse', None)), tuple(sorted(k for k in vars(m))), str(iso))
+        d = iso.data_raw
+        core = (tuple(map(tuple, d.to_numpy().tolist())), tuple(d.columns), tuple(str(t) for t in d.dtypes))
+    else:
+        m = iso.model
+        core = (tuple(sorted((k, repr(v)) for k, v in m.params.items())), repr(m.pressure_range), repr(m.loading_range),
+                repr(getattr(m, 'rmse', None)), tuple(sorted(k for k in vars(m))))
+    return core + (tuple(sorted((k, repr(v)) for k, v in vars(iso).items() if k not in ('data_raw', 'model', '_material', '_adsorbate', 'l_interpolator', 'p_interpolator'))),
+                   tuple(sorted((k, repr(v)) for k, v in iso.material.properties.items())), tuple(sorted((k, repr(v)) for k, v in iso.adsorbate.properties.items())))
+
+
+def _obs_any(iso):
+    """everything observable of an isotherm of either class: the raw state first, then identifier / export, then the raw state
+    again (reading the identifier or exporting must not change the object either: field 0 tells)"""
+    if isinstance(iso, (list, tuple)):
+        parts = [_obs_any(x) for x in iso]
+        return (all(x[0] for x in parts), tuple(x[1] for x in parts), tuple(x[2] for x in parts))
+    raw1 = _raw_state(iso)
+    if hasattr(iso, 'data_raw'):
+        rest = obs(iso)
+    else:
+        rest = (iso.iso_id, repr(sorted((k, repr(v)) for k, v in iso.to_dict().items())), str(iso))
+    raw2 = _raw_state(iso)
+    return (raw1 == raw2, raw1, rest)
 
 
 def _outcome(fn, obj):
@@ -382,8 +413,11 @@ def opaque_queries(rep, tier, seed):
             iso = objs[kind]
             n += 1
             before = _obs_any(iso)
+            if not before[0]:
+                rep.failure('C04:unclassified:not-pure:identifier-read', 'reading iso_id / to_dict / str of the %s changed its stored state' % kind,
+                            {'analysis': 'iso_id', 'object': kind, 'history': order[:k], 'kind': 'not-pure'})
             r1 = _outcome(fn, iso)
-            if _obs_any(iso) != before:
+            if _obs_any(iso)[1:] != before[1:]:
                 rep.failure('C04:unclassified:not-pure:%s' % name, 'analysis %s changed the %s passed to it' % (name, kind),
                             {'analysis': name, 'object': kind, 'history': order[:k + 1], 'kind': 'not-pure'})
                 objs[kind] = _objects()[kind]()
